@@ -59,9 +59,10 @@ def cm_class():
     tree = ast.parse(open(mutation.__file__).read())
     fn = next(n for n in tree.body if isinstance(n, ast.FunctionDef) and n.name == "protect_via_deepcopy")
     w = next(n for n in ast.walk(fn) if isinstance(n, ast.With))
-    name = w.items[0].context_expr.func.id
-    node = next(n for n in tree.body if isinstance(n, ast.ClassDef) and n.name == name)
-    return getattr(mutation, name), (node.lineno, node.end_lineno)
+    from vf.bmc import find_cm_class
+
+    node = find_cm_class(tree)
+    return getattr(mutation, node.name), (node.lineno, node.end_lineno)
 
 
 CM, CM_LINES = cm_class()
